@@ -41,33 +41,45 @@ FLOWIR_ONLY = {
 }
 
 RULE = ('The component option table is derived at run time from FlowIR.type_flowir_component("full") + '
-        'default_component_structure(); for every option leaf every value of a fixed candidate pool that the leaf '
-        'schema accepts, that differs from the default and that gives a valid workflow (literals of each type, tricky '
-        'strings, None, lists, and "%%(cvar)s" variable references; quick tier: the first 6 literals + 2 variable '
-        'references per option) is set (a) on the component, (b) in the global blueprint, (c) in the stage '
-        'blueprint; plus all pairs of options inside one top-level section; plus families: variables (7 names x 20 '
-        'values x 6 scopes), environments (names x bodies, SANDBOX application-dependencies / virtualenvs), reference '
-        'lists, status-report and output sections, instances generated for a non-default platform. Each document is '
-        'written in two instance styles (all fields injected / only the fields that are set, as '
-        'DOSINIExperimentConfiguration does). Excluded by rule: options in FLOWIR_ONLY (%s); documents that '
-        'FlowIRConcrete.validate() rejects or whose source instance cannot be resolved; bool literals for numeric '
-        'options; variable names that are legacy option keywords; environment names SANDBOX/DEFAULT. A case is '
-        'non-trivial when its document differs from the base document; distinct = distinct (family, parameters, style).'
-        % ', '.join(sorted(FLOWIR_ONLY)))
+        'default_component_structure() (55 leaves today); for every option leaf every value of a fixed candidate pool '
+        'that the leaf schema accepts, that differs from the default and that gives a valid workflow (literals of each '
+        'type, strings with blanks / = / : / ; / %%, None, lists, "%%(cvar)s" variable references; quick tier: the first '
+        '6 literals + 2 variable references per option, thorough: all) is set (a) on the component, (b) in the global '
+        'blueprint, (c) in the stage blueprint; plus all pairs of options inside one top-level section (2x2 values, '
+        'thorough 3x3); plus every option under every backend of FlowIR.Backends (with the image a backend requires); '
+        'plus families: variables (7 names x 20 values x 6 scopes incl. shadowing), environments (7 names x 15 bodies, '
+        'pairs of environments, SANDBOX application-dependencies x virtualenvs), reference lists, component names, '
+        'status-report entries (10x10) and output entries, instances generated for a non-default platform (platform '
+        'variables / environments / blueprint / override). Each document is written in two instance styles (all fields '
+        'injected, as tests/test_dosini.py does / only the fields that are set, as DOSINIExperimentConfiguration does). '
+        'Family e2e: a legacy package is authored on disk, DOSINIExperimentConfiguration(createInstanceFiles=True, '
+        'primitive=False) writes the instance files (with and without a user variables file, platform default / p1), '
+        'and the written files are loaded. Excluded by rule: options in FLOWIR_ONLY (%s) and the docker backend (needs '
+        'docker.image); documents that FlowIRConcrete.validate() rejects or whose source instance cannot be resolved; '
+        'bool literals for numeric options, float literals where the schema does not name float; an explicitly empty '
+        'list for an option whose default list is not empty (restartHookOn: [] - the legacy loader reads an empty value '
+        'as "not set"); not in the alphabet: variable names that are legacy option keywords, environment names '
+        'SANDBOX/DEFAULT, component names META/DEFAULT, values with leading/trailing blanks or line breaks, names '
+        'containing = : [ ]. A case is non-trivial when its document differs from the base document; distinct = '
+        'distinct (family, parameters, style).' % ', '.join(sorted(FLOWIR_ONLY)))
 
 ASSUMPTIONS = [
     'the description that was written and the description that was loaded are both observed through '
     'FlowIRConcrete(description, "default", {}): get_component_configuration(raw=False, include_default=True, '
-    'is_primitive=True) for components, get_environment(name) for every environment, get_status(), get_output(), '
-    'get_application_dependencies(), get_virtual_environments()',
-    'Dosini.dump(is_instance=True) does not write status.conf/output.conf (the legacy instance inherits them from the '
+    'is_primitive=True) for components (configuration, references, variables), get_environment(name) for every '
+    'environment, get_status(), get_output(), get_application_dependencies(), get_virtual_environments()',
+    'Dosini.dump(is_instance=True) does not write status.conf/output.conf (a legacy instance keeps the files of its '
     'package); like tests/test_dosini.py::test_dump_instance the check writes them with Dosini._dump_status / '
-    '_dump_output from the same instance description',
-    'numbers are compared by value (120 == 120.0), bool/str/None by type and value; variable values and environment '
-    'values are compared as the strings they interpolate to (the legacy format stores text only)',
+    '_dump_output from the same instance description (family e2e uses the files of the package)',
+    'numbers are compared by value (120 == 120.0), bool/str/None by type and value; a key that is absent equals a key '
+    'that is None; variable values and environment values are compared as the text they interpolate to (the legacy '
+    'format stores text only)',
+    'in status/output entries a key that is absent, None, "" or [] is the same observation (every consumer reads '
+    'them with .get(key, "") / .get(key, []))',
     'environment names are compared case-insensitively (FlowIR lower-cases them when it loads a description)',
     'application-dependencies and virtual-environments are part of the "environments" section (legacy [SANDBOX])',
     'an exception or a reported error while writing or loading a valid, legacy-expressible workflow is a failure',
+    'the runner cap of kept failures is raised to 20000 by this module so that every failing case can be attributed',
 ]
 
 STYLES = ('full', 'sparse')
